@@ -44,9 +44,11 @@ def oracle(h, arrivals, horizon):
         j += 1
 
 
-def run_impl(h, arrivals, horizon, kinds, sends=()):
+def run_impl(h, arrivals, horizon, kinds, sends=(), crumbs=()):
     """Real connection with keepalive K = 2h units; returns [('P', t) | ('X', t)] in units.
-    sends: times at which the CLIENT writes a command - the property counts the device's messages only."""
+    sends: times at which the CLIENT writes a command - the property counts the device's messages only.
+    crumbs: times (after the last arrival) at which the device sends one more byte of a frame that is never completed - bytes
+    that do not complete a message are not messages."""
     from aioesphomeapi import api_pb2 as pb
     from aioesphomeapi.core import PingFailedAPIError
     K = 2 * h * UNIT
@@ -68,13 +70,15 @@ def run_impl(h, arrivals, horizon, kinds, sends=()):
                     orig(expected)
             conn.on_stop = on_stop
             n0 = len(tr.writes)
-            schedule = sorted([(a, 0, k) for a, k in zip(arrivals, kinds)] + [(t, 1, 0) for t in sends])
+            schedule = sorted([(a, 0, k) for a, k in zip(arrivals, kinds)] + [(t, 1, 0) for t in sends] + [(t, 2, i) for i, t in enumerate(crumbs)])
             for a, what, k in schedule:
                 await simnet.advance(loop, to=t0 + a * UNIT)
                 if stops:
                     break
                 if what == 0:
                     tr.feed(simnet.plain_msg(msgs[k % len(msgs)]))
+                elif what == 2:
+                    tr.feed(b"\x00" if k == 0 else b"\x80")      # preamble, then length-varint continuation bytes for ever
                 else:
                     cli.switch_command(5, True)
                 await simnet.drain(loop)
@@ -94,7 +98,7 @@ def run_impl(h, arrivals, horizon, kinds, sends=()):
 
 
 def gen_case(rng):
-    h = rng.choice([128, 512, 512, 2560, 3584, 7680, 10240, 1280])      # K = 0.25, 1, 1, 5, 7, 15, 20, 2.5 s
+    h = rng.choice([128, 512, 512, 2560, 3584, 7680, 10240, 1280, 15360, 30720, 10496])      # K = 0.25, 1, 1, 5, 7, 15, 20, 2.5, 30, 60, 20.5 s
     periods = rng.choice([3, 6, 8, 12, 20, 40])
     K = 2 * h
     mode = rng.choice(["grid", "edges", "burst", "silent", "single", "chatty", "pongwin"])
@@ -129,8 +133,8 @@ def gen_case(rng):
 def run(rep, tier, seed):
     rng = random.Random(seed)
     rep.coverage["rule"] = (
-        "keepalive K in {0.25,1,2.5,5,7,15,20} s x arrival schedules (grid of K/16 with +-2^-10 s jitter, edges around every tick and pong deadline, "
-        "bursts, single message, chatty peers with gaps just under/over K, 2K, 4.5K, messages inside the pong window, total silence) of valid messages of 6 types, every third schedule with the client itself writing commands throughout; "
+        "keepalive K in {0.25,1,2.5,5,7,15,20,20.5,30,60} s x arrival schedules (grid of K/16 with +-2^-10 s jitter, edges around every tick and pong deadline, "
+        "bursts, single message, chatty peers with gaps just under/over K, 2K, 4.5K, messages inside the pong window, total silence) of valid messages of 6 types, every third schedule with the client itself writing commands throughout, every fourth with single bytes of a never completed frame trickling in after the last message; "
         "arrivals exactly at a timer instant are excluded (order of equal timers is loop-internal); non-trivial = at least one ping is written; distinct by (K, schedule)")
     proofs_ok = rep.proofs(VFILE)
     ok, log = common.build_driver()
@@ -157,7 +161,12 @@ def run(rep, tier, seed):
             step = rng.choice([h // 2 + 1, h + 3, 2 * h - 5, 3 * h + 1])
             sends = [t for t in range(rng.randrange(1, 2 * h), hz, step) if t % h != 0 and t not in arr][:200]
             rep.bump("client-sends")
-        impl = run_impl(h, arr, hz, kinds, sends)
+        crumbs = []
+        if ci % 4 == 1:
+            start = (max(arr) if arr else 0) + rng.randrange(1, 3 * h)
+            crumbs = [t for t in range(start, hz, rng.choice([h + 1, 2 * h - 3, 3 * h + 7])) if t % h != 0 and t not in sends][:150]
+            rep.bump("crumbs")
+        impl = run_impl(h, arr, hz, kinds, sends, crumbs)
         exp = oracle(h, arr, hz)
         model = [(x[0], int(x[1:])) for x in mo.split(",") if x]
         rep.bump("mode:" + mode)
@@ -178,7 +187,7 @@ def run(rep, tier, seed):
             else:
                 sig, what = "C10/death-time", f"death {ix} vs expected {ex_} (units of 1/1024 s)"
             rep.violation(sig, f"K={2 * h * UNIT} s, arrivals {[a * UNIT for a in arr][:10]}: {what}",
-                          {"kind": "impl-case", "h": h, "arrivals": arr, "horizon": hz, "kinds": kinds, "client_sends": sends, "expected": exp, "observed": impl})
+                          {"kind": "impl-case", "h": h, "arrivals": arr, "horizon": hz, "kinds": kinds, "client_sends": sends, "crumbs": crumbs, "expected": exp, "observed": impl})
         if model != impl:
             disagreements.append({"h": h, "arrivals": arr, "horizon": hz, "model": model[:20], "impl": impl[:20]})
     rep.coverage["disagreements"] = len(disagreements)
@@ -195,7 +204,7 @@ def replay(path):
     if d.get("kind") != "impl-case":
         print("nothing to replay:", d.get("kind"))
         return 0
-    impl = run_impl(d["h"], d["arrivals"], d["horizon"], d["kinds"], d.get("client_sends", ()))
+    impl = run_impl(d["h"], d["arrivals"], d["horizon"], d["kinds"], d.get("client_sends", ()), d.get("crumbs", ()))
     exp = oracle(d["h"], d["arrivals"], d["horizon"])
     print("observed:", impl)
     print("expected:", exp)
